@@ -1,29 +1,27 @@
 import EAO.Model.Basic
 import EAO.Model.Grid
 /-!
-# EAO.Model.Scaled — model of `ScaledAsset.setup_optim_problem` (`eaopack/assets.py`)
+# EAO.Model.Scaled — model of `ScaledAsset.setup_optim_problem` (`eaopack/assets.py`, tree 8409988)
 
 The scaled asset takes the finished problem of its base asset (`c, l, u, A, b, cType, mapping`) and
-adds one variable `s` (the scale).  Literally, in the order of the code:
+adds one variable `s` (the scale) at position `n_base = len(op.l)`.  Literally, in the order of the code:
 
 1. every base row `A x (kind) b` becomes `A x − (b/norm)·s (kind) 0`; the new column is appended
-   to `A`, i.e. it sits at position "number of columns of `A`";
+   to `A` (a base without matrix gets an empty matrix with `n_base + 1` columns);
 2. `Idisp` = the distinct values of the mapping index over the rows of type 'd', in order of first
    occurrence; `nD = |Idisp|`;  bounds of the variables `Idisp` are widened to
    `min(0,l)·max_scale/norm`, `max(0,u)·max_scale/norm` (other variables keep their bounds);
-3. `nD` rows `U` and `nD` rows `L` are stacked below: the block `hstack(eye(nD), −u[Idisp]/norm)` —
-   the `k`-th row has its 1 in COLUMN `k` (not in column `Idisp[k]`) and the scale coefficient in
-   column `nD` (not in column `n`);
+3. `nD` rows `U` and `nD` rows `L` are stacked below: row `k` has a 1 in column `Idisp[k]` and
+   `−u[Idisp[k]]/norm` (resp. `−l`) in column `n_base`;
 4. bounds `[min_scale, max_scale]` and cost `fix_costs · Σ dt(restricted grid of the scaled asset)`
    are appended; all mapping rows are re-assigned to the scaled asset; one mapping row
-   (`time_step 0`, first node, type 'size', `var_name 'scale'`) is appended under the index label
-   `mapping.index.max() + 1` (not `n`).
+   (`time_step 0`, first node, type 'size', `var_name 'scale'`, `bool = False`) is appended under the
+   index label `n_base`.
 
-Whenever the set-up succeeds, columns `nD` of step 3 and "number of columns of `A`" of step 1
-coincide (otherwise `scipy.sparse.vstack` raises a `ValueError`: `buildScaledE`); they are the scale
-VARIABLE (position `n`) only if `nD = n`.  `ScaledRegular` is the condition under which the literal
-construction is the intended one; it fails for an `OrderBook` with an order outside the horizon
-(a variable without mapping row) — see /verif/notes/findings_scaled.md.
+`scipy.sparse.vstack` raises a `ValueError` when the base's matrix does not have `n_base` columns, and
+numpy an `IndexError` when a dispatch index is not a variable of the base (`buildScaledE`); neither
+happens for the asset classes of eaopack.  History: before 8409988 the tie rows used `eye(nD)` and the
+label `max + 1` (findings S-1 … S-3 in /verif/notes/findings_scaled.md).
 -/
 namespace EAO
 
@@ -43,16 +41,13 @@ def ScaledP.ctorOk (p : ScaledP) : Bool :=
 /-- `op.mapping.index[op.mapping['type']=='d'].unique()` — order of first occurrence -/
 def dispVars (M : List MapRow) : List Nat := ((M.filter (·.kind == .d)).map (·.var)).eraseDups
 
-/-- `op.mapping.index.max()` -/
-def maxIndex (M : List MapRow) : Nat := (M.map (·.var)).foldl max 0
-
 /-- step 1: `A x − (b/norm) s (kind) 0`, scale in column `sc` -/
 def scaleRow (nrm : Rat) (sc : Nat) (r : Row) : Row :=
   { coeffs := r.coeffs ++ [(sc, - r.rhs / nrm)], rhs := 0, kind := r.kind }
 
-/-- step 3: row `k` of `hstack(eye(nD), −bound[Idisp]/norm)` -/
-def tieRow (nrm : Rat) (sc : Nat) (kind : RowKind) (k : Nat) (bound : Rat) : Row :=
-  { coeffs := [(k, 1), (sc, - bound / nrm)], rhs := 0, kind := kind }
+/-- step 3: the row tying dispatch variable `d` to the scale: `x_d − (bound/norm)·s (kind) 0` -/
+def tieRow (nrm : Rat) (sc : Nat) (kind : RowKind) (d : Nat) (bound : Rat) : Row :=
+  { coeffs := [(d, 1), (sc, - bound / nrm)], rhs := 0, kind := kind }
 
 def ratMin (a b : Rat) : Rat := if a ≤ b then a else b
 def ratMax (a b : Rat) : Rat := if a ≤ b then b else a
@@ -66,57 +61,36 @@ def scaleMapRow (p : ScaledP) (idx : Nat) : MapRow :=
   { var := idx, asset := p.name, node := some p.node0, kind := .other "size", step := 0,
     factor := 1, isBool := false, varName := "scale" }
 
-/-- the scaled problem for a non-empty base problem (no shape check) -/
+/-- the scaled problem for a non-empty base problem (no shape check); `nB = len(op.l)` -/
 def buildScaledCore (p : ScaledP) (base : AssetProblem) (dtSum : Rat) : AssetProblem :=
   let I  := dispVars base.mapping
-  let nD := I.length
-  let us := I.map fun d => base.u.getD d 0
-  let ls := I.map fun d => base.l.getD d 0
+  let nB := base.l.length
   { name := p.name, nodes := base.nodes,
     c := base.c ++ [p.fixCosts * dtSum],
     l := mapAt I (fun v => ratMin 0 v * p.maxScale / p.normScale) base.l ++ [p.minScale],
     u := mapAt I (fun v => ratMax 0 v * p.maxScale / p.normScale) base.u ++ [p.maxScale],
-    rows := base.rows.map (scaleRow p.normScale nD)
-      ++ us.zipIdx.map (fun (b, k) => tieRow p.normScale nD .U k b)
-      ++ ls.zipIdx.map (fun (b, k) => tieRow p.normScale nD .L k b),
-    mapping := base.mapping.map (fun m => { m with asset := p.name })
-      ++ [scaleMapRow p (maxIndex base.mapping + 1)] }
+    rows := base.rows.map (scaleRow p.normScale nB)
+      ++ I.map (fun d => tieRow p.normScale nB .U d (base.u.getD d 0))
+      ++ I.map (fun d => tieRow p.normScale nB .L d (base.l.getD d 0)),
+    mapping := base.mapping.map (fun m => { m with asset := p.name }) ++ [scaleMapRow p nB] }
 
 /-- `ScaledAsset.setup_optim_problem`: a base problem without variables (base asset not active in the
     horizon) is returned as it is -/
 def buildScaled (p : ScaledP) (base : AssetProblem) (dtSum : Rat) : AssetProblem :=
   if base.l.length = 0 then base else buildScaledCore p base dtSum
 
-/-- with the `ValueError` of `scipy.sparse.vstack`: `aCols` = number of columns of the base's `A`
-    (`none`: the base has no restriction matrix, `A is None`); the stacked block has `nD + 1` columns,
-    the scaled base matrix `aCols + 1`.  A base with variables but WITHOUT any mapping row (an order
-    book all of whose orders lie outside the horizon) makes `mapping.index.max()` NaN: the returned
-    mapping carries the label NaN (not representable here: `"nan-index"`), and every portfolio that
-    contains the asset fails with a `ValueError` when it converts the labels to integers. -/
+/-- with the exceptions: `aCols` = number of columns of the base's `A` (`none`: `A is None`); the scaled
+    base matrix has `aCols + 1` columns, the stacked tie block `n_base + 1` (`ValueError` of `vstack` when
+    they differ); a dispatch index that is not a variable of the base is an `IndexError` of `op.l[Idisp]` -/
 def buildScaledE (p : ScaledP) (base : AssetProblem) (dtSum : Rat) (aCols : Option Nat) :
     Except String AssetProblem :=
   if base.l.length = 0 then .ok base else
   let shapeOk := match aCols with
-    | some k => decide (k = (dispVars base.mapping).length)
+    | some k => decide (k = base.l.length)
     | none => true
-  if !shapeOk then .error "value"
-  else if base.mapping.isEmpty then .error "nan-index"
+  if !(dispVars base.mapping).all (fun d => decide (d < base.l.length)) then .error "index"
+  else if !shapeOk then .error "value"
   else .ok (buildScaledCore p base dtSum)
-
-/-- the condition under which the literal construction is the intended one: the dispatch variables
-    are exactly all variables of the base, in their natural order (then `eye(nD)` addresses the
-    right columns and column `nD` is the scale variable) -/
-def ScaledRegular (base : AssetProblem) : Prop := dispVars base.mapping = List.range base.n
-
-instance (base : AssetProblem) : Decidable (ScaledRegular base) := by
-  unfold ScaledRegular; exact inferInstance
-
-/-- guard of the `max index + 1` quirk: the scale's mapping row points at the scale variable iff the
-    last variable of the base has a mapping row -/
-def LastVarMapped (base : AssetProblem) : Prop := maxIndex base.mapping + 1 = base.n
-
-instance (base : AssetProblem) : Decidable (LastVarMapped base) := by
-  unfold LastVarMapped; exact inferInstance
 
 /-- `self.timegrid.restricted.dt.sum()` -/
 def activeDuration (g : Grid) : Rat := g.dt.sum
